@@ -140,12 +140,14 @@ def same(a, b):
 
 
 # indexer kinds: (name, src shape, buffer shape, iy, ix, by, bx, coordinate lists)
-def indexers():
+def indexers(H=2, W=3):
     out = []
-    H, W = 2, 3
     coords = [(y, x) for y in range(H) for x in range(W)]
     sy, sx = [c[0] for c in coords], [c[1] for c in coords]
     out.append(("full", (H, W), (H, W), slice(None), slice(None), slice(None), slice(None), sy, sx, sy, sx))
+    if (H, W) != (2, 3):
+        out.append(("negrow-to-0", (H, W), (H, W), slice(None), slice(None), slice(H - 1, None, -1), slice(None), sy, sx, [H - 1 - y for y in sy], sx))
+        return out
     # a sub-rectangle of a larger source into a sub-rectangle of a larger buffer
     out.append(("subrect", (3, 4), (4, 5), slice(1, 3), slice(0, 3), slice(2, 4), slice(1, 4), [1 + y for y in sy], sx, [2 + y for y in sy], [1 + x for x in sx]))
     # negative-step row slice down to row 0 (as tile_image / multi-WCS use for bottom-up tiles)
@@ -154,18 +156,19 @@ def indexers():
     return out
 
 
-def buffers_job(mode):
+def buffers_job(mode, H=2, W=3):
     from toasty.image import Image, ImageMode
 
     part = Part()
     M = ImageMode[mode]
-    pats = list(itertools.product([False, True], repeat=6))
-    src_pats = [tuple([True] * 6)] if mode == "RGB" else pats
+    NP = H * W
+    pats = list(itertools.product([False, True], repeat=NP))
+    src_pats = [tuple([True] * NP)] if mode == "RGB" else pats
 
     def bad(clause, kind, detail, cfg):
         part.violation("buffer/%s/mode=%s/indexer=%s" % (clause, mode, kind), "%r: %s" % (cfg, detail), cfg)
 
-    for kind, sshape, bshape, iy, ix, by, bx, sy, sx, dy, dx in indexers():
+    for kind, sshape, bshape, iy, ix, by, bx, sy, sx, dy, dx in indexers(H, W):
         nsrc = sshape[0] * sshape[1]
         ndst = bshape[0] * bshape[1]
         for sp in src_pats:
@@ -205,7 +208,7 @@ def buffers_job(mode):
                     clause = "update-changes-outside-rectangle" if (neq & outside).any() else "update-wrong-value"
                     bad(clause, kind, "got\n%r\nwant\n%r" % (got.tolist(), want.tolist()), cfg)
                 # fill (the destination's previous content must not matter)
-                if dp in (pats[0], pats[-1], pats[21]):
+                if dp in (pats[0], pats[-1], pats[min(21, len(pats) - 2)]):
                     b = Image.from_array(dst.copy())
                     try:
                         simg.fill_into_maskable_buffer(b, iy, ix, by, bx)
@@ -216,7 +219,7 @@ def buffers_job(mode):
                     if not same(b.asarray(), want):
                         bad("fill-wrong", kind, "got\n%r\nwant\n%r" % (b.asarray().tolist(), want.tolist()), cfg)
         # fill with pointwise integer-array indexers (as the chunked sampler does)
-        if kind == "full":
+        if kind == "full" and (H, W) == (2, 3):
             for sp in src_pats[:: max(1, len(src_pats) // 8)]:
                 src = make_src(mode, 2, 3, list(sp), 40)
                 for sel in ([0, 1, 2, 3, 4, 5], [0, 2, 5], [4], []):
@@ -237,6 +240,9 @@ def buffers_job(mode):
                     if not same(b.asarray(), want):
                         bad("fill-wrong", "intarray", "got\n%r\nwant\n%r" % (b.asarray().tolist(), want.tolist()), cfg)
     # clear / is_completely_masked / make_maskable_buffer on every destination pattern
+    if (H, W) != (2, 3):
+        part.sample({"mode": mode, "pattern_size": (H, W), "patterns": "all 2^%d x 2^%d" % (NP, NP)})
+        return part
     for dp in pats:
         dst = make_dst(mode, 2, 3, list(dp), 45)
         cfg = {"mode": mode, "dst_defined": dp}
@@ -536,7 +542,7 @@ def _job(j):
     if j[0] == "aliasing":
         return aliasing_job(j[1:])
     if j[0] == "buffers":
-        return buffers_job(j[1])
+        return buffers_job(*j[1:])
     return persistence_job(j[1:])
 
 
@@ -553,6 +559,9 @@ def run(tier, seed):
         "integer-array (pointwise) indexers are checked for fill only (what the chunked sampler uses); update through them is not a rectangle and is outside the statement",
     ]
     jobs = [("buffers", m) for m in MODES]
+    if tier == "thorough":
+        # all 2^9 x 2^9 patterns on a 3x3 buffer (full and reversed-row indexers)
+        jobs += [("buffers", m, 3, 3) for m in MODES]
     for m in MODES:
         for f in FORMATS[m]:
             for scheme in ("L/Y/YX", "LXY"):
